@@ -72,8 +72,28 @@ fn check_bitslice(op: Op, k: u32, combo: u32, bg: u32) -> Option<String> {
     None
 }
 
+/// (d) the other spellings of the same operations: `x op= y`, `x += u16 / i16`, `x -= u16 / i16` must give exactly the word (data and
+/// init mask) that the binary operator gives, so that the soundness established in (a)-(c) carries over to them.
+fn check_forms(lmask: u16, lbase: u16, rmask: u16, rbase: u16) -> Option<(String, String)> {
+    let l = Word::verif_from_parts(lbase, lmask); let r = Word::verif_from_parts(rbase, rmask);
+    let same = |a: Word, b: Word| a.get() == b.get() && a.verif_init_mask() == b.verif_init_mask();
+    let show = |w: Word| format!("data={:#06x} init={:#06x}", w.get(), w.verif_init_mask());
+    let what = format!("l=({lbase:#06x}/{lmask:#06x}) r=({rbase:#06x}/{rmask:#06x})");
+    let mut x = l; x += r; if !same(x, l + r) { return Some(("form:AddAssign".into(), format!("{what}: `l += r` gives {}, `l + r` gives {}", show(x), show(l + r)))); }
+    let mut x = l; x -= r; if !same(x, l - r) { return Some(("form:SubAssign".into(), format!("{what}: `l -= r` gives {}, `l - r` gives {}", show(x), show(l - r)))); }
+    let mut x = l; x &= r; if !same(x, l & r) { return Some(("form:BitAndAssign".into(), format!("{what}: `l &= r` gives {}, `l & r` gives {}", show(x), show(l & r)))); }
+    let c = Word::new_init(rbase);
+    let mut x = l; x += rbase; if !same(x, l + c) { return Some(("form:AddAssign<u16>".into(), format!("{what}: `l += {rbase:#06x}u16` gives {}, `l + init` gives {}", show(x), show(l + c)))); }
+    let mut x = l; x += rbase as i16; if !same(x, l + c) { return Some(("form:AddAssign<i16>".into(), format!("{what}: `l += {}i16` gives {}, `l + init` gives {}", rbase as i16, show(x), show(l + c)))); }
+    let mut x = l; x -= rbase; if !same(x, l - c) { return Some(("form:SubAssign<u16>".into(), format!("{what}: `l -= {rbase:#06x}u16` gives {}, `l - init` gives {}", show(x), show(l - c)))); }
+    let mut x = l; x -= rbase as i16; if !same(x, l - c) { return Some(("form:SubAssign<i16>".into(), format!("{what}: `l -= {}i16` gives {}, `l - init` gives {}", rbase as i16, show(x), show(l - c)))); }
+    let (fu, fi): (Word, Word) = (Word::from(rbase), Word::from(rbase as i16));
+    if !same(fu, c) || !same(fi, c) { return Some(("form:From".into(), format!("Word::from({rbase:#06x}) gives {} / {}", show(fu), show(fi)))); }
+    None
+}
+
 pub fn run(ctx: &Ctx) -> Report {
-    let mut rep = Report::new("(a) per-bit truth tables of AND/NOT at all 16 positions x 16 combinations x 3 backgrounds; (b) ADD/SUB/AND/NOT over 32x32 mask pairs (uninitialized bits among positions 0,1,2,14,15) x 8x8 base values x all completions of the uninitialized bits; (c) fully initialized operands: 64-value boundary set x all 65536 (quick) or all 2^32 pairs (thorough); non-trivial = groups with at least one uninitialized operand bit");
+    let mut rep = Report::new("(a) per-bit truth tables of AND/NOT at all 16 positions x 16 combinations x 3 backgrounds; (b) ADD/SUB/AND/NOT over 32x32 mask pairs (uninitialized bits among positions 0,1,2,14,15) x 8x8 base values x all completions of the uninitialized bits; (d) the assignment and mixed-type spellings (+=, -=, &=, += / -= with u16 and i16, From) give exactly the binary operator's word over the same 32x32 masks x 8x8 bases; (c) fully initialized operands: 64-value boundary set x all 65536 (quick) or all 2^32 pairs (thorough); non-trivial = groups with at least one uninitialized operand bit");
     // (a)
     let r = sweep(ctx, 2 * 16 * 16 * 3, 64, |i, acc| {
         let op = if i / (16 * 16 * 3) == 0 { Op::And } else { Op::Not };
@@ -100,6 +120,17 @@ pub fn run(ctx: &Ctx) -> Report {
             Ok(Ok(n)) => { acc.transitions += n; acc.outcomes.insert(mix(op as u64, (ls.count_ones() * 8 + rs.count_ones()) as u64)); }
             Ok(Err(d)) => acc.violation(format!("unsound:{op:?}"), format!("b:{i}"), d),
             Err(p) => acc.violation(format!("panic:{}", panic_site(&p)), format!("b:{i}"), p),
+        }
+    });
+    rep.absorb(r);
+    // (d)
+    let r = sweep(ctx, 32 * 32 * 64, 256, |i, acc| {
+        let ls = (i / (32 * 64)) as u32; let rs = (i / 64 % 32) as u32; let lb = BASES[(i / 8 % 8) as usize]; let rb = BASES[(i % 8) as usize];
+        acc.evals += 1; acc.transitions += 8; acc.count("operator_form_cases", 1);
+        match catch(|| check_forms(mask_from(ls), lb, mask_from(rs), rb)) {
+            Ok(None) => {}
+            Ok(Some((sig, d))) => acc.violation(sig, format!("d:{i}"), d),
+            Err(p) => acc.violation(format!("panic:{}", panic_site(&p)), format!("d:{i}"), p),
         }
     });
     rep.absorb(r);
@@ -148,6 +179,7 @@ pub fn replay(case: &str) -> Option<String> {
                  check_bitslice(op, (i / 48 % 16) as u32, (i / 3 % 16) as u32, (i % 3) as u32) }
         "b" => { let i: u64 = p.get(1)?.parse().ok()?; let op = OPS[(i / (32 * 32 * 64)) as usize];
                  check_group(op, mask_from((i / (32 * 64) % 32) as u32), BASES[(i / 8 % 8) as usize], mask_from((i / 64 % 32) as u32), BASES[(i % 8) as usize]).err() }
+        "d" => { let i: u64 = p.get(1)?.parse().ok()?; check_forms(mask_from((i / (32 * 64)) as u32), BASES[(i / 8 % 8) as usize], mask_from((i / 64 % 32) as u32), BASES[(i % 8) as usize]).map(|x| x.1) }
         "c" => { let op = OPS[p.get(1)?.parse::<usize>().ok()?]; check_full(op, p.get(2)?.parse().ok()?, p.get(3)?.parse().ok()?) }
         _ => None,
     }
